@@ -187,7 +187,11 @@ func runShutdown(c *Ctx, r *shutRun, full bool) {
 			if s == r.at {
 				fire()
 			}
-			switch c.Rng.Intn(6) {
+			switch c.Rng.Intn(7) {
+			case 6:
+				// the server drops the watch stream; the watcher reconnects a second later
+				srv.CloseStreams()
+				time.Sleep(1200 * time.Millisecond)
 			case 0:
 				ct.pert.Barrier()
 			case 1:
@@ -393,11 +397,11 @@ func runC12(c *Ctx) {
 		}
 	}
 	// mid-relist and mid-reconnect shutdowns, slow lists, hanging watch connects
-	for i := 0; i < 24; i++ {
+	for i := 0; i < 36; i++ {
 		var problems []string
 		base := sched.LibraryGoroutines()
-		mode := []string{"slow-list", "watch-hangs", "watch-errors", "slow-list+watch-hangs"}[i%4]
-		at := time.Duration(i/4) * 700 * time.Millisecond
+		mode := []string{"slow-list", "watch-hangs", "watch-errors", "slow-list+watch-hangs", "stream-dropped", "stream-dropped-twice"}[i%6]
+		at := time.Duration(i/6) * 700 * time.Millisecond
 		dl := sched.Bubble(c.T, func() {
 			srv := fakeapi.New()
 			srv.Set(1, 1, labSets[1], 1)
@@ -422,6 +426,18 @@ func runC12(c *Ctx) {
 			}
 			t.add(t.root, nMonitor, nil)
 			time.Sleep(at)
+			if mode == "stream-dropped" || mode == "stream-dropped-twice" {
+				// Close() after the watcher has reconnected (and while it waits to)
+				sched.Settle()
+				srv.CloseStreams()
+				time.Sleep(1300 * time.Millisecond)
+				sched.Settle()
+				if mode == "stream-dropped-twice" {
+					srv.Set(1, 2, labSets[1], 1)
+					srv.CloseStreams()
+					time.Sleep(400 * time.Millisecond) // inside the retry delay
+				}
+			}
 			done := make(chan struct{})
 			go func() { ct.c.Close(); close(done) }()
 			ct.pert.SetLevel(0)
@@ -456,5 +472,5 @@ func runC12(c *Ctx) {
 		c.DistinctCase(what)
 		c.Case(enc.L(enc.I(13), enc.I(0)))
 	}
-	c.Rep.Rule = "trees as in C11 on a real controller in virtual time under perturbation; shutdown triggers {Close, 3 concurrent Close, context cancel, list error} fired at every step index of a running workload (shutdown-point enumeration), plus Close swept over time while a list is slow, the watch connect hangs until cancelled or always fails (mid-relist / mid-reconnect). Oracles: Close() returns and Done() closes at once in virtual time (synctest's deadlock detection is the oracle for 'does not hang'); after the root is done the inventory of goroutines with library frames is back to its value before the scenario; every API call {Subscribe*, Clone*, Refilter, Cache().List/Get, Close} on every stopped node returns a result or ErrNotRunning instead of blocking. Non-trivial = every scenario."
+	c.Rep.Rule = "trees as in C11 on a real controller in virtual time under perturbation; shutdown triggers {Close, 3 concurrent Close, context cancel, list error} fired at every step index of a running workload (shutdown-point enumeration), plus Close swept over time while a list is slow, the watch connect hangs until cancelled or always fails, and after the server dropped the watch stream (after the reconnect, and inside the retry delay) (mid-relist / mid-reconnect). Oracles: Close() returns and Done() closes at once in virtual time (synctest's deadlock detection is the oracle for 'does not hang'); after the root is done the inventory of goroutines with library frames is back to its value before the scenario; every API call {Subscribe*, Clone*, Refilter, Cache().List/Get, Close} on every stopped node returns a result or ErrNotRunning instead of blocking. Non-trivial = every scenario."
 }
